@@ -21,6 +21,19 @@ from vcheck import fmt_q, fmt_vec, fmt_ivec, fmt_crs, parse_out_vec
 import gen
 from props import blockvals as bv
 
+ASSUMPTIONS = [
+    "smoothers under MPI (ops relax / brelax vs m.drelax): the run is at double; a case is compared exactly when the model run (at Qc, same operations in the same "
+    "order) produced only binary64-representable intermediate values -- decided by ocaml/distsolve/ops_distrelax.ml through a tracking wrapper around the Scalar "
+    "operations --, else within 2^-40 relative to max(1, max |entry|) (spai1: 1e-9); power_iters = 0 only (the power iteration draws random numbers); OMP_NUM_THREADS = 1 "
+    "(serial ILU solve and serial Gauss-Seidel sweep); ILUT cases with an exact tie in the p-largest selection of the model are skipped",
+]
+TRUSTED_BASE = ["harness/drv_mpi_solve.cpp ops relax / brelax (runtime relaxation wrapper built through the property tree before move_to_backend, five calls on one object); "
+                "tools/props/c12_relax.py (assembles the ranks' slices, default parameter values 0.72 / 1.0f/30 / 1e-2f passed to the model); ocaml/distsolve/ops_distrelax.ml "
+                "(binary64-representability tracking)"]
+RULE = ("smoothers under MPI (ops relax / brelax, own random stream seed*1000+1299): 9 relaxation types x 1..4 (1..8) ranks, n = 2..20 (thorough 36; iluk / ilup / ilut 24), SPD M-matrices and general "
+        "non-symmetric matrices, exact families (diagonals +-2^k, row sums of squares 2^k, Gershgorin bound 2^k raised in one row), random contiguous partitions with empty ranks "
+        "and thin partitions (one-row ranks); block values: 5 types on block-SPD systems; thin-strip chebyshev solve cases (stream seed*1000+1301) on 3, 4, 8 ranks")
+
 REL_TOL = F(1, 2**40)
 SPAI1_TOL = F(1, 10**9)
 TYPES = ["spai0", "damped_jacobi", "gauss_seidel", "ilu0", "iluk", "ilup", "ilut", "spai1", "chebyshev"]
@@ -162,7 +175,8 @@ def relax_cases(tier, seed):
             reps = ((4 if np_ == 1 else 10) if quick else 40)
             if typ == "chebyshev": reps = int(reps * 2.5)
             for it in range(reps):
-                n = r.randint(max(2, np_), 20 if quick else 36)
+                # the exact-rational models of iluk / ilup / ilut (list-based sparse rows) get slow beyond ~25 rows per rank
+                n = r.randint(max(2, np_), 20 if quick else (24 if typ in ("iluk", "ilup", "ilut") else 36))
                 exact_family = it % 3 == 0 and typ in ("spai0", "damped_jacobi", "gauss_seidel", "chebyshev")
                 if typ == "spai0" and exact_family: A = pow2_norm_rows(r, n)
                 elif typ in ("damped_jacobi", "gauss_seidel") and exact_family: A = pow2_diag(r, general_rows(r, n))
